@@ -28,17 +28,31 @@ Lemma window_near r p d : In d (window r) -> dist p (padd p d) <= Z.of_nat r.
 Proof. intros H. apply in_window in H. unfold dist, padd in *; cbn [fst snd] in *. lia. Qed.
 
 Definition tr (z : Z) : bool := negb (z =? 0).
+Definition peq (p q : px) : bool := (fst p =? fst q) && (snd p =? snd q).
 Definition d_erode (r : nat) (a : px -> Z) (p : px) : Z :=
   if forallb (fun d => tr (a (padd p d))) (window r) then 1 else 0.
-Definition peq (p q : px) : bool := (fst p =? fst q) && (snd p =? snd q).
 Definition d_erodep (r : nat) (a : px -> Z) (p : px) : Z :=
   if forallb (fun d => peq d (0, 0) || tr (a (padd p d))) (window r) then 1 else 0.
 Definition zsum (l : list Z) : Z := fold_right Z.add 0 l.
-(* local op: sum over the window; global op: symbol 9 (the rank/no-rank test of median_filter) reads pixel (0,0),
-   symbol 1 (np.all(~mask)) is false, every other symbol is its number + the sum of its arguments at pixel (1,1) *)
+(* every abstract structure is interpreted as the 4-connected cross *)
+Definition crossl : list px := [(0, 1); (1, 0); (0, -1); (-1, 0)].
+Definition d_sset (s : nat) (d : px) : bool := existsb (peq d) crossl.
+Definition d_locs (s f : nat) (a : px -> Z) (p : px) : Z := a p + zsum (map (fun d => a (padd p d)) crossl).
+Definition d_erodes (s : nat) (a : px -> Z) (p : px) : Z :=
+  if forallb (fun d => tr (a (padd p d))) crossl then 1 else 0.
+Lemma peq_eq p q : peq p q = true -> p = q.
+Proof. unfold peq. intros H. apply andb_true_iff in H as [H1 H2]. apply Z.eqb_eq in H1, H2. destruct p, q; cbn in *; subst; auto. Qed.
+Lemma peq_refl p : peq p p = true.
+Proof. unfold peq. rewrite !Z.eqb_refl. reflexivity. Qed.
+Lemma in_cross d : In d crossl -> d_sset 0 d = true.
+Proof. intros H. unfold d_sset. apply existsb_exists. exists d. split; auto. apply peq_refl. Qed.
+Lemma cross_in s d : d_sset s d = true -> In d crossl.
+Proof. unfold d_sset. intros H. apply existsb_exists in H as [x [Hx E]]. apply peq_eq in E. subst; auto. Qed.
+(* local op: sum over the window; global op: symbol needs_ranking (the rank/no-rank test of median_filter) reads pixel
+   (0,0), symbol all (np.all(~mask)) is false, every other symbol is its number + the sum of its arguments at pixel (1,1) *)
 Definition d_loc (r f : nat) (a : px -> Z) (p : px) : Z := zsum (map (fun d => a (padd p d)) (window r)).
 Definition d_glob (f : nat) (xs : list (px -> Z)) (p : px) : Z :=
-  if Nat.eqb f 9 then zsum (map (fun x => x (0, 0)) xs) else if Nat.eqb f 1 then 0 else Z.of_nat f + zsum (map (fun x => x (1, 1)) xs).
+  if Nat.eqb f sym_needs_ranking then zsum (map (fun x => x (0, 0)) xs) else if Nat.eqb f sym_all then 0 else Z.of_nat f + zsum (map (fun x => x (1, 1)) xs).
 
 Lemma d_glob_ext f xs ys : Forall2 (fun a b : px -> Z => forall q, a q = b q) xs ys -> forall p, d_glob f xs p = d_glob f ys p.
 Proof.
@@ -56,6 +70,7 @@ Proof.
   refine {| V := Z; truthy := tr; falsev := 0; maskv := fun b => if b then 1 else 0;
             constimg := fun c _ => Z.of_nat c; pw := fun f vs => Z.of_nat f + zsum vs;
             loc := d_loc; glob := d_glob; erode := d_erode; erodep := d_erodep;
+            sset := d_sset; locs := d_locs; erodes := d_erodes;
             mcrad := fun k => 1%nat; mcfold := fun k l => zsum (map snd l) |}.
   - reflexivity.
   - intros [|]; reflexivity.
@@ -71,6 +86,12 @@ Proof.
     rewrite forallb_forall in F. destruct (window_hit r p q Hq) as [d [Hd ->]]. specialize (F d Hd).
     apply orb_true_iff in F as [F|F]; auto. exfalso. apply Hne. unfold peq in F. apply andb_true_iff in F as [F1 F2].
     apply Z.eqb_eq in F1, F2. destruct p, d; unfold padd; cbn [fst snd] in *. subst. f_equal; lia.
+  - intros s f a b p H0 H. unfold d_locs. rewrite H0. f_equal. f_equal. apply map_ext_in. intros d Hd. apply H.
+    apply existsb_exists. exists d. split; auto. apply peq_refl.
+  - intros s a b p H0 H. unfold d_erodes. rewrite (forallb_ext_in _ (fun d => tr (b (padd p d)))); auto.
+    intros d Hd. rewrite H; auto. apply existsb_exists. exists d. split; auto. apply peq_refl.
+  - intros s a p H d Hd Hne. unfold d_erodes in H. destruct (forallb _ _) eqn:F; [|discriminate].
+    rewrite forallb_forall in F. apply F. apply (cross_in s d Hd).
 Defined.
 
 (* a 3x3 mask with the centre pixel masked out; two images that differ only there *)
@@ -88,6 +109,28 @@ Proof.
 Qed.
 
 (* ... while the accepted programs evaluate, under the same interpretation, to equal values inside the mask *)
-Example sobel_demo : eval demo demo_mask prog_hsobel img_a (2, 2) = eval demo demo_mask prog_hsobel img_b (2, 2)
-                  /\ eval demo demo_mask prog_median_filter img_a (1, 1) = eval demo demo_mask prog_median_filter img_b (1, 1).
+Example sobel_demo : run demo demo_mask prog_hsobel img_a (2, 2) = run demo demo_mask prog_hsobel img_b (2, 2)
+                  /\ run demo demo_mask prog_median_filter img_a (1, 1) = run demo demo_mask prog_median_filter img_b (1, 1)
+                  /\ run demo demo_mask (prog_regional_maximum_struct 0) img_a (2, 1) = run demo demo_mask (prog_regional_maximum_struct 0) img_b (2, 1).
 Proof. vm_compute. auto. Qed.
+
+(* the footprint lattice really discriminates: a read over structure 0 under a selector eroded by the SAME structure
+   is accepted (what remains is the centre pixel, which is in the mask); under a selector eroded by a DIFFERENT
+   structure, under no erosion at all, or mixed with a radius-1 read it is rejected *)
+Example footprint_same_structure_accepted :
+  accepts ([], Select (Select (Pw 0 [LocS 0 1 Img]) (ErodeS 0 MaskE) FalseC) MaskE FalseC) = true.
+Proof. reflexivity. Qed.
+Example footprint_other_structure_rejected :
+  accepts ([], Select (Select (Pw 0 [LocS 0 1 Img]) (ErodeS 1 MaskE) FalseC) MaskE FalseC) = false.
+Proof. reflexivity. Qed.
+Example footprint_without_erosion_rejected : accepts ([], Select (Pw 0 [LocS 0 1 Img]) MaskE FalseC) = false.
+Proof. reflexivity. Qed.
+Example footprint_mixed_with_radius_rejected :
+  accepts ([], Select (Pw 0 [LocS 0 1 Img; Loc 1 2 Img]) (ErodeS 0 MaskE) FalseC) = false.
+Proof. reflexivity. Qed.
+(* sharing: a definition is checked once and its guarantee travels with the reference *)
+Example shared_selector_accepted :
+  accepts ([Erode 1 MaskE; Loc 1 0 Img], Select (Pw 1 [Ref 1]) (Ref 0) FalseC) = true.
+Proof. reflexivity. Qed.
+Example dangling_reference_rejected : accepts ([], Ref 0) = false.
+Proof. reflexivity. Qed.
